@@ -35,7 +35,7 @@ static FILE *out;
 /* callback log of the current loop call */
 static char cblog[1 << 16];
 static size_t cblen;
-static int cbfirst;
+static int cbfirst, ncblog;
 /* watchers */
 struct wrec { int id; int kind; /* 0 prep 1 check */ const char *s; struct evwatch *w; };
 static struct wrec watch[16];
@@ -48,6 +48,7 @@ static void logcb(int e, long r, const char *k)
 	cblen += snprintf(cblog + cblen, sizeof(cblog) - cblen, "%s{\"e\":%d,\"r\":%ld,\"k\":\"%s\"}",
 	    cbfirst ? "" : ",", e, r, k);
 	cbfirst = 0;
+	ncblog++;
 }
 
 static int kind_sig(int e) { return e == 5; }
@@ -95,6 +96,7 @@ static void cb(evutil_socket_t fd, short what, void *arg)
 	int e = (int)(intptr_t)arg;
 	logcb(e, what, "cb");
 	run_script(e);
+	if (ncblog >= 12 && base) { forced = 1; event_base_loopbreak(base); }
 }
 static void once_cb(evutil_socket_t fd, short what, void *arg)
 {
@@ -248,13 +250,23 @@ static int exec_op(jval *op, int incb)
 	if (!strcmp(a, "script")) { script[e] = j_get(op, "s"); return 0; }
 	if (!strcmp(a, "wnew")) { wadd(e, !strcmp(j_str(op, "k", "prep"), "check"), j_str(op, "s", "none")); return 0; }
 	if (!strcmp(a, "wfree")) { int i = wfind(e); if (i >= 0) wremove(i); return 0; }
+	if (!strcmp(a, "basefree")) {
+		int i;
+		cblen = 0; cbfirst = 1; cblog[0] = 0; ncblog = 0;
+		while (nwatch) wremove(0);
+		if (j_int(op, "n", 1)) event_base_free(base); else event_base_free_nofinalize(base);
+		base = NULL;
+		for (i = 1; i <= NEV; i++)	/* a pending event_finalize() that never ran leaves the memory with us */
+			if (alloc[i] && finreq[i] == 2) { free(ev[i]); alloc[i] = 0; }
+		return 0;
+	}
 	if (!strcmp(a, "loop")) {
 		int f = (int)j_int(op, "f", 1), fl = 0, r;
 		if (f & 1) fl |= EVLOOP_ONCE;
 		if (f & 2) fl |= EVLOOP_NONBLOCK;
 		if (f & 4) fl |= EVLOOP_NO_EXIT_ON_EMPTY;
 		pol = j_str(op, "pol", "exact");
-		loop_waits = 0; blocked = 0; forced = 0; cblen = 0; cbfirst = 1; cblog[0] = 0;
+		loop_waits = 0; blocked = 0; forced = 0; cblen = 0; cbfirst = 1; cblog[0] = 0; ncblog = 0;
 		r = event_base_loop(base, fl);
 		return r;
 	}
@@ -355,16 +367,19 @@ static void run_scenario(jval *sc)
 		int isloop = !strcmp(j_str(op, "a", ""), "loop");
 		int r = exec_op(op, 0);
 		if (k) fputc(',', out);
+		if (!base) { fprintf(out, "{\"r\":%d,\"cb\":[%s]}", r, cblog); break; }
 		print_obs(r, isloop);
 		event_base_assert_ok_(base);
 	}
 	fprintf(out, "]}\n");
 	/* teardown (the line is only emitted afterwards, so that a crash in the
 	 * teardown is attributed to this scenario) */
-	for (i = 1; i <= NEV; i++)
-		if (alloc[i] && finreq[i] != 1 && finreq[i] != 2) { event_free(ev[i]); alloc[i] = 0; }
-	while (nwatch) wremove(0);
-	event_base_free(base); /* runs pending finalizers */
+	if (base) {
+		for (i = 1; i <= NEV; i++)
+			if (alloc[i] && finreq[i] != 1 && finreq[i] != 2) { event_free(ev[i]); alloc[i] = 0; }
+		while (nwatch) wremove(0);
+		event_base_free(base); /* runs pending finalizers */
+	}
 	for (i = 1; i <= NEV; i++)
 		if (alloc[i]) { free(ev[i]); alloc[i] = 0; }
 	base = NULL;
